@@ -41,6 +41,15 @@ def pIgnore : P (Option Filter)
       (some (.include (SetMatcher.mergeAll (pats.map SetMatcher.ofPrefix))), r)
   | _ => none
 
+/-- an ignore configuration given per API version: `@[<version>*]<cfg>` restricts `<cfg>` to the listed
+versions (a version without an entry has nothing ignored); without the prefix it is given for every version -/
+def pIgnoreV : P (String → Option Filter)
+  | '@' :: '[' :: cs =>
+    match pMany pStr ']' cs [] with
+    | some (vs, r) => (pIgnore r).map fun (ig, r') => ((fun v => if vs.contains v then ig else none), r')
+    | none => none
+  | cs => (pIgnore cs).map fun (ig, r) => ((fun _ => ig), r)
+
 /-- all permutations of a (short) list -/
 def perms {α : Type} : List α → List (List α)
   | [] => [[]]
@@ -93,9 +102,9 @@ def stepUpd (st : State) (name : String) (rest : List Char) : Option (State × S
   let s := st.schema
   match name with
   | "upd.reset" =>
-    (arg pTypeRef fun tr => arg pIgnore fun ig => arg pFlag fun noop => done (tr, ig, noop)) rest |>.map fun ((tr, ig, noop), _) =>
+    (arg pTypeRef fun tr => arg pIgnoreV fun ig => arg pFlag fun noop => done (tr, ig, noop)) rest |>.map fun ((tr, ig, noop), _) =>
       ({ st with rootType := tr, live := .null, managers := [],
-                 updater := { converter := Converter.identity, ignore := fun _ => ig, returnInputOnNoop := noop } }, "ok")
+                 updater := { converter := Converter.identity, ignore := ig, returnInputOnNoop := noop } }, "ok")
   | "upd.mode" =>
     (arg pFlag fun ren => done ren) rest |>.map fun (ren, _) =>
       ({ st with multiVersion := ren,
